@@ -418,6 +418,7 @@ enum LazySeqState {
     Computing,
     Computed(Py<PyAny>),
     Realized(Py<PyAny>),
+    Failed(PyErr),
 }
 
 #[pyclass(subclass, generic, frozen, module = "basilisp._lang.seq")]
@@ -499,6 +500,9 @@ impl LazySeq {
             LazySeqState::Realized(seq) => {
                 return Ok(seq.as_ref().clone_ref(py));
             }
+            LazySeqState::Failed(e) => {
+                return Err(e.clone_ref(py));
+            }
             _ => (),
         }
         drop(state);
@@ -527,10 +531,22 @@ impl LazySeq {
         drop(state);
 
         if let Some(gen) = genfn {
-            let obj = gen.call0(py)?;
-            let mut state = mutex.borrow_mut();
-            *state = LazySeqState::Computed(obj.clone_ref(py));
-            Ok(obj.clone_ref(py))
+            match gen.call0(py) {
+                Ok(obj) => {
+                    let mut state = mutex.borrow_mut();
+                    *state = LazySeqState::Computed(obj.clone_ref(py));
+                    Ok(obj.clone_ref(py))
+                }
+                Err(e) => {
+                    // Remember the failure so every later access raises it again
+                    // rather than silently seeing an empty sequence. The generator
+                    // is not retried: it (or an iterator it draws from) may already
+                    // have been advanced past the failing element.
+                    let mut state = mutex.borrow_mut();
+                    *state = LazySeqState::Failed(e.clone_ref(py));
+                    Err(e)
+                }
+            }
         } else {
             panic!("Expected a reference to a generator function!");
         }
